@@ -525,7 +525,7 @@ func checkLayered(t run.TB, c LayeredCase) {
 	}
 	// a call that does not return keeps allocating: the process is ended with the case recorded
 	if msg := timedMem("Example", 20*time.Second, 1<<30, func() { ex, er = lib.Example(s) }); msg != "" {
-		run.FailAndExit(chkLayered, c, "%s (an acyclic graph of %d small types)", msg, len(c.Spec.Types))
+		run.FailAndExit(chkLayered, c, "%s (a graph of %d small types)", msg, len(c.Spec.Types))
 	}
 	if !er.OK {
 		run.Fail(t, chkLayered, c, "Example fails on an accepted graph: %v", er)
@@ -630,20 +630,35 @@ func TestLayeredGraphs(t *testing.T) {
 			// maxItems, or no rule): `{"p0": [], ...}` is a document of every one of them, Check accepts
 			// the graph, and the example has to come back
 			k := rapid.IntRange(5, 7).Draw(t, "mutualTypes")
-			rule := rapid.SampledFrom([]string{" // {minItems: 0}", " // {minItems: 0, maxItems: 10}", "", " // {maxItems: 3}"}).Draw(t, "arrayRule")
+			rule := rapid.SampledFrom([]string{" // {minItems: 0}", " // {minItems: 0, maxItems: 10}", "", " // {maxItems: 3}",
+				// ... or the rule asks for an item, and the item has a terminating alternative; or no array
+				// at all: a required property with such a list
+				" // {minItems: 1}", " /* {minItems: 1} */", "required-list"}).Draw(t, "arrayRule")
+			doc := `{"p0":[]}`
 			for i := 0; i < k; i++ {
 				text := "{"
 				for j := 0; j < k; j++ {
 					if j > 0 {
 						text += ","
 					}
-					text += fmt.Sprintf("\n  \"p%d\": [%s\n    %s\n  ]", j, rule, name("t", j))
+					switch {
+					case rule == "required-list":
+						text += fmt.Sprintf("\n  \"p%d\": %s | @leaf", j, name("t", j))
+					case strings.Contains(rule, "minItems: 1"):
+						text += fmt.Sprintf("\n  \"p%d\": [%s\n    %s | @leaf\n  ]", j, rule, name("t", j))
+					default:
+						text += fmt.Sprintf("\n  \"p%d\": [%s\n    %s\n  ]", j, rule, name("t", j))
+					}
 				}
 				sp.Types = append(sp.Types, lib.Named{Name: name("t", i), Text: text + "\n}"})
 			}
+			if rule == "required-list" || strings.Contains(rule, "minItems: 1") {
+				sp.Types = append(sp.Types, lib.Named{Name: "@leaf", Text: "1"})
+				doc = "{}"
+			}
 			sp.Schema = "@t0"
 			sp.TypesKnowTypes = false
-			c := LayeredCase{Spec: sp, Doc: `{"p0":[]}`, Form: form}
+			c := LayeredCase{Spec: sp, Doc: doc, Form: form}
 			checkLayered(t, c)
 			run.Eval(chkLayered, true, form, fmt.Sprint(k), rule)
 			run.Label("layered:" + form)
